@@ -369,6 +369,51 @@ pub fn run_case<T: ZooTy>(input: &Value, entry: &ZooEntry) -> Value {
             }),
         );
     }
+    // ---- API coverage: schema value → ArrayBuilder::new → owned Serializer → into_inner
+    {
+        use serde::Serialize;
+        use serde_arrow::schema::SerdeArrowSchema;
+        let stage = Cell::new("schema");
+        fronts.insert(
+            "serializer".into(),
+            staged(&stage, || {
+                let schema = SerdeArrowSchema::from_type::<T>(opts())?;
+                let builder = serde_arrow::ArrayBuilder::new(schema)?;
+                stage.set("to");
+                let mut builder = values.serialize(serde_arrow::Serializer::new(builder))?.into_inner();
+                let arrays = builder.to_marrow()?;
+                stage.set("from");
+                with_static(arrays, |arrays| {
+                    let views: Vec<marrow::view::View<'static>> = arrays.iter().map(|a| a.as_view()).collect();
+                    with_static(views, |views| {
+                        let got: Vec<T> = serde_arrow::from_marrow(&fields, views)?;
+                        Ok(exp.compare(&got))
+                    })
+                })
+            }),
+        );
+    }
+    // ---- API coverage: the Item / Items wrappers around the real type
+    {
+        use serde_arrow::utils::{Item, Items};
+        let stage = Cell::new("schema");
+        fronts.insert(
+            "items".into(),
+            staged(&stage, || {
+                let ifields = Vec::<Field>::from_type::<Item<T>>(opts())?;
+                stage.set("to");
+                let arrays = serde_arrow::to_marrow(&ifields, &Items(&values))?;
+                stage.set("from");
+                with_static(arrays, |arrays| {
+                    let views: Vec<marrow::view::View<'static>> = arrays.iter().map(|a| a.as_view()).collect();
+                    with_static(views, |views| {
+                        let Items(got): Items<Vec<T>> = serde_arrow::from_marrow(&ifields, views)?;
+                        Ok(exp.compare(&got))
+                    })
+                })
+            }),
+        );
+    }
     case["fronts"] = Value::Object(fronts);
     case
 }
